@@ -214,11 +214,24 @@ extern "C" void harness()
 		bool operator()() const { rec(0, 7, 0); return true; }
 	};
 	d->appendListener(EV, eventpp::conditionalFunctor([](uint32_t a, uint32_t b) { rec(1, 4, a - b); }, BothWays()));
+	// listener and condition given as NAMED objects (lvalues): the wrapper holds its own copies, so what the caller does to its objects afterwards
+	// (re-using the condition object with another threshold, letting it go out of scope) does not change when the registered listener runs
+	struct Thresh { uint32_t t; bool operator()(uint32_t a, uint32_t) const { rec(0, 6, a); return a > t; } };
+	Thresh th{want};
+	auto namedListener = [](uint32_t a, uint32_t b) { rec(1, 5, a | b); };
+	d->appendListener(EV, eventpp::conditionalFunctor(namedListener, th));
+	th.t = ~want;
 	for(int i = 0; i < 2; i++) {
 		uint32_t a = vf_nondet_u32(), b = vf_nondet_u32();
 		g_trn = 0;
 		d->dispatch(EV, a, b);
-		// the both-ways listener is the last one: check and strip its records first
+		{	// the named-object listener is the last one
+			int e = g_trn;
+			if(a > want) { vf_assert(e >= 2 && g_tr[e - 1].kind == 1 && g_tr[e - 1].id == 5 && g_tr[e - 1].val == (a | b), 290); e--; }
+			vf_assert(e >= 1 && g_tr[e - 1].kind == 0 && g_tr[e - 1].id == 6 && g_tr[e - 1].val == a, 291); e--;
+			g_trn = e;
+		}
+		// the both-ways listener is the one before it: check and strip its records first
 		{
 			int e = g_trn;
 			if((a & mask) != want) { vf_assert(e >= 2 && g_tr[e - 1].kind == 1 && g_tr[e - 1].id == 4 && g_tr[e - 1].val == a - b, 284); e--; }
